@@ -143,7 +143,7 @@ def _temps_and_tuples(tree):
 def normalise(tree):
     """in place; returns the number of rewrites.  Order: temporaries and tuple assignments, append loops, private helpers
     (whose bodies are then already in normal form), and temporaries / tuples once more for what the inlining exposed"""
-    total = partials_to_defs(tree) + split_on_shared_predicates(tree)
+    total = partials_to_defs(tree) + split_conditional_returns(tree) + split_on_shared_predicates(tree)
     ast.fix_missing_locations(tree)
     total += _temps_and_tuples(tree)
     n = append_loops_to_comprehensions(tree) + fuse_comprehensions(tree)
@@ -151,10 +151,36 @@ def normalise(tree):
     n += inline_helpers(tree)
     ast.fix_missing_locations(tree)
     while n:
-        total += n + fold_constants(tree) + _temps_and_tuples(tree)
+        total += n + fold_constants(tree) + split_conditional_returns(tree) + _temps_and_tuples(tree)
         n = append_loops_to_comprehensions(tree) + fuse_comprehensions(tree)
         ast.fix_missing_locations(tree)
     return total
+
+
+def split_conditional_returns(tree):
+    """`return X if c else Y`  ->  `if c: return X` / `else: return Y`: the exits of a function are statements, so that per-exit rules
+    (guards, tuple roles) see each case on its own and never a mixture of the two values"""
+    n = 0
+    for node in ast.walk(tree):
+        for f in ("body", "orelse", "finalbody"):
+            blk = getattr(node, f, None)
+            if not (isinstance(blk, list) and blk and isinstance(blk[0], ast.stmt)):
+                continue
+            i = 0
+            while i < len(blk):
+                st = blk[i]
+                if isinstance(st, ast.Return) and isinstance(st.value, ast.IfExp):
+                    e = st.value
+                    new = ast.If(test=e.test, body=[ast.copy_location(ast.Return(value=e.body), st)], orelse=[ast.copy_location(ast.Return(value=e.orelse), st)])
+                    ast.copy_location(new, st)
+                    blk[i] = new
+                    n += 1
+                    continue  # the new if is visited by the outer walk (nested conditional returns)
+                i += 1
+    if n:
+        # ast.walk snapshots children lazily; run again for returns created inside the new ifs
+        n += split_conditional_returns(tree)
+    return n
 
 
 def partials_to_defs(tree):
